@@ -24,6 +24,29 @@ EXPLANATION = (
 RETIRE_TABLES = ("nameplates", "messages", "mailbox_sides", "mailboxes")
 
 
+def _row_of_own_mailbox(model, p, term):
+    """term is row['id'] of a row of a select keyed exactly by own mailbox id"""
+    from ..terms import strip_wrappers
+    if not (term[0] == "sub" and term[2] == ("const", "id")):
+        return False
+    base = term[1]
+    site = None
+    if base[0] == "row":
+        site = base[1]
+    elif base[0] == "elem":
+        r = strip_wrappers(base[1])
+        if r[0] == "rows":
+            site = r[1]
+    if site is None:
+        return False
+    for e, _ in all_events(p, ("sql",)):
+        if e["site"] == site:
+            eq = e["src"]["where_eq"]
+            return eq is not None and set(eq) <= {"mailbox_id", "app_id"} and \
+                "mailbox_id" in eq and is_own_mailbox_id(eq["mailbox_id"])
+    return False
+
+
 def run(ctx):
     model = ctx.model
     ctx.rule("R08.guard", "close deletes only when, after marking this side closed "
@@ -97,6 +120,9 @@ def run(ctx):
                     eq = x["src"]["where_eq"]
                     okk = eq is not None and set(eq) <= {"mailbox_id", "app_id"} and \
                         "mailbox_id" in eq and is_own_mailbox_id(eq["mailbox_id"])
+                    if not okk and eq is not None and set(eq) == {"id"}:
+                        # keyed by the id of a row selected by own mailbox id
+                        okk = _row_of_own_mailbox(model, p, eq["id"])
                     ctx.ob("R08.codel", construct_of(x) + " [keyed by this mailbox]", okk, x,
                            "" if okk else "close deletes `%s` rows selected by (%s): rows of "
                            "other mailboxes are removed" % (
